@@ -193,6 +193,7 @@ class Holder:
         self.B = B
         self.spec = spec
         self.kind = spec["kind"]
+        self.info = {}  # what the last op actually passed (for details / known-finding triggers)
         self.rebuild()
 
     def rebuild(self):
@@ -241,6 +242,7 @@ def run_op(h, op, probes, snapshot0):
 
     name = op["op"]
     S = h.S
+    h.info = {}
     obs = None
     res = None
     verdict = None
@@ -352,6 +354,7 @@ def run_op(h, op, probes, snapshot0):
         ix = getattr(S, "index", None)
         names = _safe(lambda: list(ix.names), None) or ([getattr(ix, "name", None)] if ix is not None else [])
         level = {"all": None, "empty": [], "first": names[:1]}[op["level"]]
+        h.info = {"level": level}
         res = attempt(lambda: S.reset_index(level=level, drop=op["drop"]))
     elif name == "component_update_checks":
         key = _col_key(S, op["col"])
@@ -440,12 +443,21 @@ def evaluate(case):
     if not has_regex and not has_agn:
         ev.labels.append("no_known_state_trigger")
 
+    # reference answers come from a schema that has never been used for anything else: a spare holder that is
+    # re-used only while its own fingerprint is still pristine (else rebuilt)
+    spare = [other]
+
+    def fresh_holder():
+        if fp.fingerprint(spare[0].S) != fp0:
+            spare[0] = Holder(spec)
+        return spare[0]
+
     v0_cache = {}
 
     def V0(j, lazy):
         k = (j, bool(lazy))
         if k not in v0_cache:
-            v0_cache[k] = normalise(Holder(spec).validate(probes[j], lazy))
+            v0_cache[k] = normalise(fresh_holder().validate(probes[j], lazy))
         return v0_cache[k]
 
     o0_cache = {}
@@ -453,18 +465,27 @@ def evaluate(case):
     def O0(op):
         k = repr(sorted(op.items()))
         if k not in o0_cache:
-            fresh = Holder(spec)
-            out, obs, _, _ = run_op(fresh, op, probes, snapshot0)
+            out, obs, _, _ = run_op(fresh_holder(), op, probes, snapshot0)
             o0_cache[k] = (out, obs)
         return o0_cache[k]
 
-    impact_draw_done = [False]
+    impact_seen = set()
 
-    def impact(label, pathkey, step):
-        """what would the next caller observe on the mutated schema?"""
+    def impact(label, areas, step):
+        """what would the next caller observe on the mutated schema?  (once per op/area per case)"""
+        key = (label.split("/")[0], tuple(areas))
+        if key in impact_seen:
+            return
+        first = not impact_seen
+        impact_seen.add(key)
         mut = _safe(lambda: copy.deepcopy(h.S))
         if mut is None:
             return
+
+        def emit(sym, detail):
+            for a in areas:  # one disc per area: every root cause keeps its own bucket
+                ev.add(f"{sym}:{label}:{a}", dict(detail, areas=areas))
+
         changed = []
         for j in range(len(probes)):
             for lazy in (False, True):
@@ -476,21 +497,19 @@ def evaluate(case):
                     changed.append({"probe": j, "lazy": lazy, "transition": transition(V0(j, lazy), v),
                                     "before": short(V0(j, lazy)), "after": short(v)})
         if changed:
-            ev.add(f"impact-verdict:{label}:{pathkey}", {"step": step, "changed": changed[:3], "n": len(changed)})
+            emit("impact-verdict", {"step": step, "changed": changed[:3], "n": len(changed)})
         if kind != "series":
-            fresh = Holder(spec)
-            y0 = fp.outcome(fresh.S.to_yaml)
+            y0 = fp.outcome(fresh_holder().S.to_yaml)
             y1 = fp.outcome(copy.deepcopy(mut).to_yaml)
             a = y0.get("value") if y0["kind"] == "ok" else y0["kind"] + ":" + str(y0.get("exc_type"))
             b = y1.get("value") if y1["kind"] == "ok" else y1["kind"] + ":" + str(y1.get("exc_type"))
             if a != b:
-                ev.add(f"impact-to_yaml:{label}:{pathkey}", {"step": step, "fresh": str(a)[-400:], "mutated": str(b)[-400:]})
-        if not impact_draw_done[0]:
-            impact_draw_done[0] = True
-            d0 = draw_once(lambda: Holder(spec).S.strategy(size=1))
+                emit("impact-to_yaml", {"step": step, "fresh": str(a)[-400:], "mutated": str(b)[-400:]})
+        if first:
+            d0 = draw_once(lambda: fresh_holder().S.strategy(size=1))
             d1 = draw_once(lambda: copy.deepcopy(mut).strategy(size=1))
             if d0 != d1:
-                ev.add(f"impact-strategy:{label}:{pathkey}", {"step": step, "fresh": d0, "mutated": d1})
+                emit("impact-strategy", {"step": step, "fresh": d0, "mutated": d1})
 
     seen_reject_at = None
     seen_serialise_at = None
@@ -500,14 +519,15 @@ def evaluate(case):
     def after_step(i, op, label, outcome):
         cur = fp.fingerprint(h.S)
         if cur != fp0:
-            diffs = fp.fp_diff(fp0, cur, limit=8)
-            paths = sorted({area(d["path"]) for d in diffs}) or ["<unlocated>"]
-            paths = [a for a in paths if not any(b != a and a.startswith(b + ".") for b in paths)]
-            pathkey = "+".join(paths)[:120]
-            ev.add(f"state-changed:{label}:{pathkey}",
-                   {"step": i, "op": op, "outcome": outcome, "diff": diffs[:4],
-                    "pandera_eq_noticed": (not _safe(lambda: bool(h.S == snapshot0), True)) if eq0 else None})
-            impact(label, pathkey, i)
+            diffs = fp.fp_diff(fp0, cur, limit=12)
+            areas = sorted({area(d["path"]) for d in diffs}) or ["<unlocated>"]
+            areas = [a for a in areas if not any(b != a and a.startswith(b + ".") for b in areas)]
+            noticed = (not _safe(lambda: bool(h.S == snapshot0), True)) if eq0 else None
+            for a in areas:
+                ev.add(f"state-changed:{label}:{a}",
+                       {"step": i, "op": op, "info": dict(h.info), "outcome": outcome, "areas": areas,
+                        "diff": [d for d in diffs if area(d["path"]).startswith(a)][:3], "pandera_eq_noticed": noticed})
+            impact(label, areas, i)
             h.rebuild()
             if fp.fingerprint(h.S) != fp0:
                 raise HarnessError("C05: rebuilt schema does not match the initial fingerprint")
@@ -547,7 +567,7 @@ def evaluate(case):
         # transforming methods: new object; use it and drop it
         if name in TRANSFORMS and res is not None:
             if res is h.S:
-                ev.add(f"transform-returned-receiver:{name}", {"step": i, "op": op})
+                ev.add(f"transform-returned-receiver:{name}", {"step": i, "op": op, "info": dict(h.info)})
             else:
                 tv = op.get("then_validate")
                 if tv is not None and tv < len(probes):
@@ -610,15 +630,17 @@ SERIALISABLE = set(["gt", "ge", "lt", "le", "eq", "ne", "in_range", "isin", "not
 def _k_statistics(family, case, disc):
     sym, opname, _, areas = _disc_parts(disc)
     return (sym in STATE_SYMPTOMS and opname in ("statistics", "to_yaml", "to_json", "to_script", "model_to_yaml")
-            and all(a.endswith("checks.statistics") for a in areas)
+            and len(areas) == 1 and areas[0].endswith("checks.statistics")
             and any(c["kind"] in SERIALISABLE for c in _all_checks(case["schema"])))
 
 
 @known.finding("C05/datetime-tz-agnostic-check-rewrites-dtype")
 def _k_tz(family, case, disc):
     sym, opname, _, areas = _disc_parts(disc)
-    return (sym in STATE_SYMPTOMS and opname in ("validate", "component_validate", "coerce_dtype", "get_dtypes")
-            and all(a in ("columns.dtype", "dtype") for a in areas)
+    return (sym in STATE_SYMPTOMS
+            and opname in ("validate", "component_validate", "coerce_dtype", "get_dtypes", "update_checks",
+                           "component_update_checks")  # the shallow copies made by update_checks share the dtype object
+            and areas in (["columns.dtype"], ["dtype"])
             and any(str(c.get("dtype")).startswith("dt_agnostic") for c in case["schema"]["columns"]))
 
 
@@ -647,7 +669,7 @@ def _k_mi(family, case, disc):
 @known.finding("C05/reset-index-empty-level-returns-receiver")
 def _k_reset(family, case, disc):
     return (disc.kind == "transform-returned-receiver:reset_index"
-            and isinstance(disc.detail, dict) and disc.detail.get("op", {}).get("level") == "empty")
+            and isinstance(disc.detail, dict) and disc.detail.get("info", {}).get("level") == [])
 
 
 @known.finding("C05/model-to-schema-hands-out-cached-object")
@@ -657,6 +679,116 @@ def _k_model(family, case, disc):
             and areas in (["strict"], ["coerce"]))
 
 
+# ------------------------------------------------------------- family fresh_process
+# State that lives outside the schema object graph and changes once per process (lazy registration of the pandas
+# implementations of built-in checks) can only be observed from a process that has not validated anything yet:
+# each case runs in its own interpreter.
+
+_FRESH = r"""
+import json, sys, copy, pickle, warnings
+warnings.filterwarnings("ignore")
+import pandas as pd, pandera as pa
+case = json.loads(sys.argv[1])
+sys.path.insert(0, case["root"])
+from harness.props import _c05_build as B
+S = B.build_frame_schema(case["schema"])
+via = case["snapshot_via"]
+if via == "deepcopy":
+    snap = copy.deepcopy(S)
+elif via == "add_remove_columns":
+    snap = S.add_columns({"zz": pa.Column(int)}).remove_columns(["zz"])
+elif via == "rebuild":
+    snap = B.build_frame_schema(case["schema"])
+out = {"eq_before": bool(S == snap)}
+df = B.build_frame(case["probe"])
+op = case["first_op"]
+try:
+    if op == "validate":
+        S.validate(df, lazy=True)
+    elif op == "other_schema_validate":
+        pa.DataFrameSchema({"q": pa.Column(int, pa.Check.isin([1]))}).validate(pd.DataFrame({"q": [1]}))
+    elif op == "to_yaml":
+        S.to_yaml()
+    elif op == "strategy":
+        S.strategy(size=1)
+    elif op == "repr":
+        repr(S)
+    out["op"] = "ok"
+except Exception as e:
+    out["op"] = type(e).__name__
+out["eq_after"] = bool(S == snap)
+out["eq_new_deepcopy"] = bool(S == copy.deepcopy(S))
+print("RESULT " + json.dumps(out))
+"""
+
+
+def enum_fresh(tier):
+    import os
+
+    seed = int(os.environ.get("VERIF_SEED", "1") or 1)
+    checks = [[{"kind": "gt", "args": [0]}], [{"kind": "isin", "args": [[1, 2]]}, {"kind": "len_le_3", "args": []}],
+              [{"kind": "len_le_3", "args": []}], []]
+    probes = [[1, 2], [-1, 2]]
+    cases = []
+    for ci, checks_ in enumerate(checks):
+        for via in ("deepcopy", "add_remove_columns", "rebuild"):
+            for op in ("validate", "other_schema_validate", "to_yaml", "strategy", "repr"):
+                for pi, cells in enumerate(probes):
+                    cases.append({
+                        "schema": {"kind": "frame", "columns": [{"name": "a", "regex": False, "dtype": "int64", "checks": checks_,
+                                                                  "nullable": False, "unique": False, "coerce": False,
+                                                                  "required": True}], "checks": [], "index": None},
+                        "probe": {"n": 2, "columns": [{"name": "a", "phys": "int64", "cells": cells}], "index": None},
+                        "snapshot_via": via, "first_op": op})
+    if tier == "thorough":
+        yield from cases
+        return
+    # quick: the validate column of the matrix for every check list / snapshot kind + a rotating rest
+    must = [c for c in cases if c["first_op"] == "validate" and c["probe"]["columns"][0]["cells"][0] == 1
+            and c["snapshot_via"] != "rebuild"]
+    rest = [c for c in cases if c not in must]
+    yield from must
+    yield from rest[seed % 13::13]
+
+
+def eval_fresh(case):
+    import json
+    import os
+    import subprocess
+    import sys
+
+    from ..core import ROOT
+
+    ev = Eval()
+    ev.labels += [f"fresh:first_op={case['first_op']}", f"fresh:via={case['snapshot_via']}"]
+    ev.nontrivial = bool(case["schema"]["columns"][0]["checks"]) and case["first_op"] != "repr"
+    p = subprocess.run([sys.executable, "-W", "ignore", "-c", _FRESH, json.dumps(dict(case, root=ROOT))],
+                       env=dict(os.environ), capture_output=True, text=True, timeout=600)
+    line = next((ln for ln in p.stdout.splitlines() if ln.startswith("RESULT ")), None)
+    if line is None:
+        raise HarnessError(f"fresh_process subprocess produced no result: rc={p.returncode} {p.stderr[-800:]}")
+    out = json.loads(line[len("RESULT "):])
+    if not out["eq_before"]:
+        ev.skipped = "snapshot-not-equal-initially"
+        return ev
+    if not out["eq_after"]:
+        ev.add(f"eq-snapshot-false:fresh-process:{case['first_op']}", dict(out, via=case["snapshot_via"]))
+    if not out["eq_new_deepcopy"]:
+        ev.add(f"eq-new-deepcopy-false:fresh-process:{case['first_op']}", out)
+    return ev
+
+
+@known.finding("C05/deepcopy-owns-stale-check-dispatcher")
+def _k_dispatcher(family, case, disc):
+    return (family == "fresh_process" and disc.kind == "eq-snapshot-false:fresh-process:validate"
+            and case["snapshot_via"] in ("deepcopy", "add_remove_columns")
+            and any(c["kind"] in BUILTIN_KINDS for c in case["schema"]["columns"][0]["checks"]))
+
+
+BUILTIN_KINDS = ("gt", "ge", "lt", "le", "eq", "ne", "in_range", "isin", "notin", "str_matches", "str_contains",
+                 "str_startswith", "str_endswith", "str_length", "unique_values_eq")
+
+
 def strat_history():
     from . import _c05_gen as G
 
@@ -664,11 +796,12 @@ def strat_history():
 
 
 FAMILIES = [
-    Family("history", evaluate, strategy=strat_history, n_quick=160, n_thorough=1500, shards_quick=8, shards_thorough=16,
+    Family("history", evaluate, strategy=strat_history, n_quick=100, n_thorough=1500, shards_quick=8, shards_thorough=16,
            required_labels=["kind=frame", "kind=model", "kind=series", "validate=accept", "validate=reject",
                             "fail-then-op", "serialise-then-use", "op=statistics", "op=to_yaml", "op=to_script",
                             "op=rename_columns", "op=component_validate", "has_regex", "has_tz_agnostic",
                             "no_known_state_trigger"]),
+    Family("fresh_process", eval_fresh, enumerate=enum_fresh, shards_quick=4, shards_thorough=8),
 ]
 
 
@@ -706,5 +839,5 @@ def selftest():
     finally:
         globals()["run_op"] = orig
     kinds = [d.kind for d in ev.discs]
-    if not any(k.startswith("state-changed:_planted:") and "nullable" in k and "statistics" in k for k in kinds):
+    if not {"state-changed:_planted:columns.nullable", "state-changed:_planted:columns.checks.statistics"} <= set(kinds):
         raise HarnessError(f"C05 selftest: planted state change not detected: {kinds}")
